@@ -205,6 +205,10 @@ class Prop:
                     ctx.fail('a filter raised on a decodable message', inp, 'no exception', o, {'kind': 'raises'})
                     continue
                 exp, amb = self.expected(c, decoded)
+                if o.startswith('READERS-DIFFER'):
+                    ctx.fail('the chain passes different messages over the sentences a reader delivers than over '
+                             'other decodable elements', inp, exp, o, {'kind': 'sentences'})
+                    continue
                 got = [int(x) for x in o.strip('[]').split(',') if x]
                 if not amb and got != exp:
                     ctx.fail('chain output differs from "exactly the messages that satisfy every filter"', inp, exp, got,
@@ -226,7 +230,7 @@ class Prop:
                 pass
         o = impl.step('chain %s - %s' % (inp['chain'], ' '.join(inp['lines'])))
         exp, amb = self.expected(inp['chain'], decoded)
-        got = None if o.startswith('ERR') else [int(x) for x in o.strip('[]').split(',') if x]
+        got = None if o.startswith(('ERR', 'READERS-DIFFER')) else [int(x) for x in o.strip('[]').split(',') if x]
         print('observed', o, 'expected', exp)
         return got == exp
 
